@@ -49,6 +49,8 @@ type CPkt struct {
 	Payload   []byte // declared payload of a DATA packet
 	Type      uint16 // for KUnknown
 	AnyDenied bool   // a refusal may carry any of the access-denied status codes
+	// OverDeclared: a DATA packet whose length field exceeds the bytes carried
+	OverDeclared bool
 }
 
 func (p CPkt) String() string {
@@ -110,7 +112,9 @@ type Tun struct {
 	Err    string
 }
 
-func (t *Tun) SentAll() bool { return t.next >= len(t.Plan.Pkts) || t.closed || t.Err != "" }
+func (t *Tun) SentAll() bool {
+	return (t.Client.Ready && t.next >= len(t.Plan.Pkts)) || t.closed || t.Err != ""
+}
 
 func clientIP(addr string) string {
 	if i := strings.LastIndexByte(addr, ':'); i >= 0 {
@@ -244,6 +248,7 @@ func RunTunnels(c *Ctx, tuns []*Tun, maxSteps int) {
 
 // Drain lifts stalls and lets everything in flight settle (bounded steps and time).
 func Drain(c *Ctx, maxSteps int) {
+	c.S.Draining = true
 	for _, e := range c.S.Ends() {
 		e.HoldDeliver, e.HoldWrites = false, false
 	}
